@@ -360,3 +360,63 @@ M("C06", "dec-size-check-inside-parse-try", C2, DEC,
 T("C06", "twin-dec-size-check-inside-parse-try", C2, DEC,
   dec("    if not pt:\n" + RAISE_DEC, parse="    try:\n        metadata = BeaconMetadata(pt)\n        if metadata.size < 51:\n            raise EOFError(\"truncated\")\n    except EOFError:\n"
       "        raise ValueError(\"Failed to parse decrypted metadata, not enough data\")\n"))
+
+# ================================================================================================ sixth round
+# the fixed part of the size field as a grammar-level `#define` of the C definition (folded like a numeric literal; a field
+# of the structure shadows a constant of the same name, as in dissect.cstruct)
+STRUCT_HEAD = "struct BeaconMetadata {\n    uint32 magic;\n"
+INFO = "    char info[size - 51];"
+T("C06", "twin-cdef-define-fixed-size", CC, None, None, edits=[
+    (CC, STRUCT_HEAD, "#define METADATA_COUNTED_FIXED 51\n\n" + STRUCT_HEAD), (CC, INFO, "    char info[size - METADATA_COUNTED_FIXED];")])
+T("C06", "twin-cdef-define-hex-commuted", CC, None, None, edits=[
+    (CC, STRUCT_HEAD, "#define METADATA_COUNTED_FIXED 0x33   // bytes after the size field\n" + STRUCT_HEAD), (CC, INFO, "    char info[-METADATA_COUNTED_FIXED + size];")])
+T("C06", "twin-cdef-define-expression", CC, None, None, edits=[
+    (CC, STRUCT_HEAD, "#define METADATA_FIXED 59\n#define METADATA_HEADER (4 + 4)\n#define METADATA_COUNTED_FIXED (METADATA_FIXED - METADATA_HEADER)\n" + STRUCT_HEAD),
+    (CC, INFO, "    char info[size - METADATA_COUNTED_FIXED];")])
+T("C06", "twin-cdef-two-defines-in-count", CC, None, None, edits=[
+    (CC, STRUCT_HEAD, "#define METADATA_FIXED 59\n#define METADATA_HEADER 8\n" + STRUCT_HEAD), (CC, INFO, "    char info[size - METADATA_FIXED + METADATA_HEADER];")])
+M("C06", "cdef-define-counts-whole-fixed-part", CC, None, None, "C06.R1", edits=[
+    (CC, STRUCT_HEAD, "#define METADATA_FIXED_SIZE 59\n\n" + STRUCT_HEAD), (CC, INFO, "    char info[size - METADATA_FIXED_SIZE];")])
+M("C06", "cdef-define-expression-off-by-header", CC, None, None, "C06.R1", edits=[
+    (CC, STRUCT_HEAD, "#define METADATA_FIXED 59\n#define METADATA_COUNTED_FIXED (METADATA_FIXED - 4)\n" + STRUCT_HEAD), (CC, INFO, "    char info[size - METADATA_COUNTED_FIXED];")])
+M("C06", "cdef-define-dec-size-floor-follows-define", CC, None, None, "C06.R8", edits=[
+    (CC, STRUCT_HEAD, "#define METADATA_COUNTED_FIXED 51\n" + STRUCT_HEAD), (CC, INFO, "    char info[size - METADATA_COUNTED_FIXED];"),
+    (C2, DEC, sane("    if metadata.size <= 51:\n" + SIZE_MSG))])
+# a #define whose value is not an integer expression the rule folds: the identifier stays unresolved - undecided, silent
+T("C06", "twin-cdef-define-not-folded-undecided", CC, None, None, edits=[
+    (CC, STRUCT_HEAD, "#define METADATA_COUNTED_FIXED (102 / 2)\n" + STRUCT_HEAD), (CC, INFO, "    char info[size - METADATA_COUNTED_FIXED];")])
+
+# the EOFError -> ValueError translation of the parse as a generator-based context manager (contextlib.contextmanager): the
+# escape analysis runs the generator's body with the with-body in the place of its `yield`
+PARSE_TRY = ("    try:\n        metadata = BeaconMetadata(pt)\n    except EOFError:\n"
+             "        raise ValueError(\"Failed to parse decrypted metadata, not enough data\")\n")
+DEC_DEF = "def decrypt_metadata(encrypted_metadata: bytes, private_key: RSA.RsaKey) -> BeaconMetadata:\n"
+IMP = "import base64\n"
+
+
+def cm(body, deco="@contextlib.contextmanager", imp="import base64\nimport contextlib\n", name="_translate_eof"):
+    return [(C2, IMP, imp), (C2, DEC_DEF, f"{deco}\ndef {name}(message):\n{body}\n\n" + DEC_DEF),
+            (C2, PARSE_TRY, f"    with {name}(\"Failed to parse decrypted metadata, not enough data\"):\n        metadata = BeaconMetadata(pt)\n")]
+
+
+T("C06", "twin-dec-eof-translation-contextmanager", C2, None, None, edits=cm("    try:\n        yield\n    except EOFError:\n        raise ValueError(message)\n"))
+T("C06", "twin-dec-eof-translation-contextmanager-imported-name", C2, None, None,
+  edits=cm("    try:\n        yield None\n    except (EOFError, IndexError) as e:\n        raise ValueError(message) from e\n", deco="@contextmanager", imp="import base64\nfrom contextlib import contextmanager\n"))
+M("C06", "dec-contextmanager-catches-other-class", C2, None, None, "C06.R6", edits=cm("    try:\n        yield\n    except KeyError:\n        raise ValueError(message)\n"))
+M("C06", "dec-contextmanager-translates-to-other-class", C2, None, None, "C06.R6", edits=cm("    try:\n        yield\n    except EOFError:\n        raise RuntimeError(message)\n"))
+M("C06", "dec-contextmanager-reraises", C2, None, None, "C06.R6", edits=cm("    try:\n        yield\n    except EOFError:\n        logger.debug(message)\n        raise\n"))
+M("C06", "dec-contextmanager-yield-outside-try", C2, None, None, "C06.R6", edits=cm("    try:\n        logger.debug(message)\n    except EOFError:\n        raise ValueError(message)\n    yield\n"))
+# a class-based context manager: an `__exit__` that raises / may return a truthy value changes the exception flow of the body
+# in a way the rule does not follow (undecided, silent); an `__exit__` that does neither filters nothing
+def cmc(exit_body):
+    return [(C2, DEC_DEF, "class _TranslateEof:\n    def __init__(self, message):\n        self.message = message\n\n    def __enter__(self):\n        return self\n\n"
+             "    def __exit__(self, exc_type, exc, tb):\n" + exit_body + "\n\n" + DEC_DEF),
+            (C2, PARSE_TRY, "    with _TranslateEof(\"Failed to parse decrypted metadata, not enough data\"):\n        metadata = BeaconMetadata(pt)\n")]
+
+
+T("C06", "twin-dec-eof-translation-class-contextmanager-undecided", C2, None, None,
+  edits=cmc("        if exc_type is not None and issubclass(exc_type, EOFError):\n            raise ValueError(self.message)\n        return False\n"))
+M("C06", "dec-class-contextmanager-only-logs", C2, None, None, "C06.R6",
+  edits=cmc("        if exc_type is not None and issubclass(exc_type, EOFError):\n            logger.debug(self.message)\n        return False\n"))
+M("C06", "dec-class-contextmanager-exit-raises-other-class", C2, None, None, "C06.R6",
+  edits=cmc("        if exc_type is not None and issubclass(exc_type, EOFError):\n            raise RuntimeError(self.message)\n        return False\n"))
